@@ -39,6 +39,7 @@ def gen_script(rng, n, kind):
         k = min(k, left); left -= k
         steps.append('%s%d' % (a, k))
         if rng.random() < 0.25:
+            if kind in (0, 4) and rng.random() < 0.5: steps.append('T%d' % rng.choice([0, 1, 2, 3, 5, 8, 11, 13, 20]))     # leave the encoder somewhere inside a header / a few bytes into a Block, then ask for the update
             lc = rng.randrange(5); lp = rng.randrange(5 - lc); pb = rng.randrange(5)
             steps.append(rng.choice(['Ulzma2:dict=4KiB,lc=%d,lp=%d,pb=%d' % (lc, lp, pb), 'Udelta:dist=%d+lzma2:dict=8KiB' % rng.randrange(1, 257), 'Ux86+lzma2:dict=4KiB', 'Ulzma2:dict=64KiB,mode=fast']))
             # (the threaded encoder validates a new chain only "mostly" and reports the rest from lzma_code later: not used there)
@@ -104,6 +105,7 @@ def run(ctx):
         ustrs = [x[1:].replace('+', ' ') for x in sc.split(';') if x.startswith('U')]
         cur = fs; ui = 0
         for s in steps:
+            if s.startswith('T:'): continue
             if s.startswith('U:'):
                 if s == 'U:0' and ui < len(ustrs): cur = ustrs[ui]
                 ui += 1; continue
